@@ -9,10 +9,13 @@
     The capacity gate that allocate asks before it tries to place a popped job
     (proportion's capacity policy: queue limits, non-preemptible quota) is
     modelled in Model/QuotaGate.v; statements (7)-(9) are about it, proofs in
-    Proofs/JobOrderGate.v. *)
+    Proofs/JobOrderGate.v. Statements (10)-(12) are about WHICH jobs a cycle
+    collects (InitializeWithJobs; [eligible] / [eligible_of] / [ghost_free] in
+    Model/JobOrderSpec.v), proofs in Proofs/JobOrderCollect.v. *)
 From Coq Require Import List ZArith Bool Permutation.
 From KaiV Require Import Model.JobOrder Model.JobOrderSpec Model.QuotaGate Model.QuotaGateSpec
-     Proofs.JobOrder Proofs.JobOrderGate.
+     Proofs.JobOrder Proofs.JobOrderGate Proofs.JobOrderCollect Proofs.JobOrderMonitor.
+From KaiV Require Run.C16.
 Import ListNotations.
 Open Scope Z_scope.
 
@@ -335,3 +338,117 @@ Theorem C16_gate_reading_priority_witness :
   /\ calculate_preemptibility PUnset 99 = PPreemptible.
 Proof. exact gate_witness_proof. Qed.
 Print Assumptions C16_gate_reading_priority_witness.
+
+(** (10) Which jobs a cycle collects. [jobs] is everything the status filters of
+    InitializeWithJobs let through (ready pod groups with a pending pod), in the
+    order of Go's map iteration - any list. A job is [eligible] when its queue
+    exists, the queue's parent exists (or it is top level) and the queue is a leaf;
+    any other job is a "ghost" (deleted or misspelt queue, orphaned queue, non-leaf
+    queue). Ghosts are skipped one by one: the collection of [jobs] is, step by
+    step, the collection of the ghost-free list, from any state. *)
+Theorem C16_ghosts_are_skipped_individually :
+  forall (qs : list qinfo) (qord : Z -> Z -> option job -> option job -> bool) depth jobs st,
+    initialize qs qord depth st jobs = initialize qs qord depth st (ghost_free qs jobs).
+Proof. exact initialize_ghost_free. Qed.
+Print Assumptions C16_ghosts_are_skipped_individually.
+
+(** Hence ghosts never disturb the cycle: for every hierarchy, queue order
+    function, depth, placement oracle, capacity and fuel, the whole allocate action
+    on [jobs] - every pop, every attempt, every decision, in this order - is the
+    action on the ghost-free input; two inputs with the same eligible jobs in the
+    same relative order run identically, whatever ghosts stand where; one ghost
+    more or less, anywhere, changes nothing. *)
+Theorem C16_ghosts_never_disturb_the_cycle :
+  forall (qs : list qinfo) (qord : Z -> Z -> option job -> option job -> bool) depth
+         (C : Type) (attempt : job -> C -> option (C * option job)) fuel (c : C),
+    (forall jobs, allocate qs qord depth attempt fuel jobs c
+                  = allocate qs qord depth attempt fuel (ghost_free qs jobs) c)
+    /\ (forall l1 l2, ghost_free qs l1 = ghost_free qs l2 ->
+                      allocate qs qord depth attempt fuel l1 c = allocate qs qord depth attempt fuel l2 c)
+    /\ (forall l1 g l2, eligible qs g = false ->
+                        allocate qs qord depth attempt fuel (l1 ++ g :: l2) c
+                        = allocate qs qord depth attempt fuel (l1 ++ l2) c).
+Proof. exact ghosts_never_disturb_proof. Qed.
+Print Assumptions C16_ghosts_never_disturb_the_cycle.
+
+(** (11) Collected set = eligible set, for every MaxJobsQueueDepth, every list of
+    jobs with distinct UIDs in any order with any number of ghosts: after the
+    collection, leaf queue [q] holds (as a heap) exactly the [depth] best of the
+    eligible jobs of [q] - all of them when the depth is unlimited - and nothing
+    else: no ghost, no job of another queue. *)
+Theorem C16_collected_set_is_the_eligible_set :
+  forall (qs : list qinfo) (qord : Z -> Z -> option job -> option job -> bool) depth,
+    -1 <= depth ->
+    forall jobs st, NoDup (map j_uid jobs) ->
+      initialize qs qord depth jo_empty jobs = Ok st ->
+      forall q, heap_ok job_less (leaf_items st q)
+                /\ Permutation (leaf_items st q) (d_best job_less depth (eligible_of qs q jobs)).
+Proof. exact collected_is_eligible. Qed.
+Print Assumptions C16_collected_set_is_the_eligible_set.
+
+Theorem C16_collected_iff_eligible_unlimited_depth :
+  forall (qs : list qinfo) (qord : Z -> Z -> option job -> option job -> bool) jobs st,
+    NoDup (map j_uid jobs) ->
+    initialize qs qord (-1) jo_empty jobs = Ok st ->
+    forall j q, In j (leaf_items st q) <-> (In j jobs /\ eligible qs j = true /\ j_queue j = q).
+Proof. exact collected_iff_eligible_unlimited. Qed.
+Print Assumptions C16_collected_iff_eligible_unlimited_depth.
+
+(** Permutation invariance: for any two iteration orders of the same jobs (ghosts
+    included), every leaf queue ends up holding the same jobs, and the sorted list
+    it will hand out (priority, then FIFO: C16_pop_order_within_leaf) is the same
+    list. Which jobs are collected does not depend on the order in which Go's map
+    yields them, nor on any other job. *)
+Theorem C16_collected_set_independent_of_iteration_order :
+  forall (qs : list qinfo) (qord : Z -> Z -> option job -> option job -> bool) depth,
+    -1 <= depth ->
+    forall jobs jobs' st st', NoDup (map j_uid jobs) -> Permutation jobs jobs' ->
+      initialize qs qord depth jo_empty jobs = Ok st ->
+      initialize qs qord depth jo_empty jobs' = Ok st' ->
+      forall q, Permutation (leaf_items st q) (leaf_items st' q)
+                /\ d_best job_less depth (eligible_of qs q jobs) = d_best job_less depth (eligible_of qs q jobs').
+Proof. exact collected_order_independent. Qed.
+Print Assumptions C16_collected_set_independent_of_iteration_order.
+
+(** The collection the monitor holds the real pops against (Run/C16.v
+    [collect_ideal], evaluated on the jobs of every real allocate run: each real pop
+    must hand out the head of one of these lists, and all of them must be drained at
+    the end) is the right-hand side of (11): per leaf queue the [depth] best
+    eligible jobs of that queue. *)
+Theorem C16_monitor_collection_is_the_specified_one :
+  forall (qs : list qinfo) depth jobs q,
+    Run.C16.leaf_get (Run.C16.collect_ideal qs depth jobs) q = d_best job_less depth (eligible_of qs q jobs).
+Proof. exact collect_ideal_is_d_best. Qed.
+Print Assumptions C16_monitor_collection_is_the_specified_one.
+
+(** (12) What happens when the collection stops at the first ghost
+    ([initialize_stop_at_missing_queue]: the "queue does not exist" guard ends the
+    loop instead of skipping the one job; NOT the code, it is the shape of seeded
+    change C16-4). World: a node with one GPU, one department with leaf queue 2
+    holding [g_low] (priority 50) and [g_high] (priority 60), resp. [g_young] and
+    [g_old] at equal priority, identical otherwise; [g_ghost] names queue 9, which
+    does not exist; the oracle gives the GPU to the first job attempted. The code,
+    in all six iteration orders, attempts [g_high] (resp. [g_old]) first and places
+    it. Stopping at the first ghost, on the order [low; ghost; high]: queue 2 holds
+    [g_low] only, [g_low] is placed and the eligible, comparable, higher-priority
+    [g_high] is never attempted (same for [young; ghost; old]); and (10) fails. *)
+Theorem C16_stop_at_first_ghost_refuted :
+  eligible g_qs g_low = true /\ eligible g_qs g_high = true /\ eligible g_qs g_ghost = false
+  /\ j_queue g_low = j_queue g_high /\ j_shape g_low = j_shape g_high
+  /\ job_less g_high g_low = true /\ job_less g_old g_young = true
+  /\ forallb (fun l => match allocate g_qs g_qord (-1) g_attempt 10 l 1 with
+                       | Ok [(a, true); (b, false)] => (j_uid a =? 2) && (j_uid b =? 1)
+                       | _ => false
+                       end) (all_orders3 g_low g_ghost g_high) = true
+  /\ forallb (fun l => match allocate g_qs g_qord (-1) g_attempt 10 l 1 with
+                       | Ok [(a, true); (b, false)] => (j_uid a =? 4) && (j_uid b =? 5)
+                       | _ => false
+                       end) (all_orders3 g_young g_ghost g_old) = true
+  /\ (exists st, initialize_stop_at_missing_queue g_qs g_qord (-1) jo_empty [g_low; g_ghost; g_high] = Ok st
+                 /\ leaf_items st 2 = [g_low])
+  /\ allocate_stop_at_missing_queue g_qs g_qord (-1) g_attempt 10 [g_low; g_ghost; g_high] 1 = Ok [(g_low, true)]
+  /\ allocate_stop_at_missing_queue g_qs g_qord (-1) g_attempt 10 [g_young; g_ghost; g_old] 1 = Ok [(g_young, true)]
+  /\ initialize_stop_at_missing_queue g_qs g_qord (-1) jo_empty [g_low; g_ghost; g_high]
+     <> initialize_stop_at_missing_queue g_qs g_qord (-1) jo_empty (ghost_free g_qs [g_low; g_ghost; g_high]).
+Proof. exact stop_at_first_ghost_refuted_proof. Qed.
+Print Assumptions C16_stop_at_first_ghost_refuted.
